@@ -10,7 +10,10 @@
  */
 #include "vx.h"
 
-#include "list.c"
+/* list.c is linked as an object of its own (bin/checks.d/C09.py: lib=['list.c']): nothing here shares a translation
+ * unit with it, and whatever it keeps in statics is part of every snapshot (vx_lib_*) */
+#include <librfn/util.h>
+#include <librfn/list.h>
 
 #define MAXN 6
 #define NL 2
@@ -99,8 +102,21 @@ static void op_describe(int op, vx_sb *sb)
 	}
 }
 
-/* full comparison of the real lists with the model */
+/* full comparison of the real lists with the model. The part that goes through the public API (list_iterate, ...)
+ * works on the live state but the caller puts the state back afterwards: an observation must not repair (or damage)
+ * anything for the operations that follow - those run from the state the operation under test left behind. */
+static uint64_t free_nodes_with_link;
+static int check_all_inner(void);
 static int check_all(void)
+{
+	static struct live keep; static void *libkeep;
+	if (!libkeep && vx_lib_size()) libkeep = malloc(vx_lib_size());
+	keep = L; if (libkeep) vx_lib_save(libkeep);
+	int bad = check_all_inner();
+	L = keep; if (libkeep) vx_lib_restore(libkeep);
+	return bad;
+}
+static int check_all_inner(void)
 {
 	for (int l = 0; l < NL; l++) {
 		list_t *lp = &L.lists[l];
@@ -126,11 +142,9 @@ static int check_all(void)
 		if (list_empty(lp) != (L.mlen[l] == 0)) { vx_bfs_fail("empty", "list_empty(L%d) wrong", l); return 1; }
 		if (idx_of(list_peek(lp)) != (L.mlen[l] ? L.mlist[l][0] : -1)) { vx_bfs_fail("peek", "list_peek(L%d) wrong", l); return 1; }
 	}
-	for (int n = 0; n < N; n++)
-		if (L.where[n] < 0 && L.nodes[n].link.next != NULL) {
-			vx_bfs_fail("free-node-link", "node n%d is in no list but its next pointer is not NULL", n);
-			return 1;
-		}
+	/* not judged: the statement says a removed node is "immediately reusable" - that is decided by reusing it (every
+	 * insert operation is enabled for every free node in every state), not by what its link field holds meanwhile */
+	for (int n = 0; n < N; n++) if (L.where[n] < 0 && L.nodes[n].link.next != NULL) free_nodes_with_link++;
 	return 0;
 }
 
@@ -158,13 +172,13 @@ static int op_apply(int op)
 		r = list_extract(lp);
 		exp = L.mlen[l] ? L.mlist[l][0] : -1;
 		if (idx_of(r) != exp) { VX_END; vx_bfs_fail("extract", "list_extract returned n%d, expected n%d", idx_of(r), exp); return 1; }
-		if (exp >= 0) m_remove_at(l, 0);
-		invalidate(l); break;
+		if (exp >= 0) { m_remove_at(l, 0); invalidate(l); }	/* nothing extracted: nothing changed */
+		break;
 	case OP_REMOVE:
 		b = list_remove(lp, np); pos = m_find(l, n);
 		if (b != (pos >= 0)) { VX_END; vx_bfs_fail("remove", "list_remove returned %d, membership is %d", b, pos >= 0); return 1; }
-		if (pos >= 0) m_remove_at(l, pos);
-		invalidate(l); break;
+		if (pos >= 0) { m_remove_at(l, pos); invalidate(l); }
+		break;
 	case OP_CONTAINS:
 		b = list_contains(lp, np, NULL); pos = m_find(l, n);
 		if (b != (pos >= 0)) { VX_END; vx_bfs_fail("contains", "list_contains returned %d, membership is %d", b, pos >= 0); return 1; }
@@ -228,6 +242,163 @@ static void setup(int c)
 	N = configs[c].n;
 	for (int i = 0; i < MAXN; i++) { keys[i] = configs[c].keys[i]; L.nodes[i].key = keys[i]; L.where[i] = -1; }
 	for (int l = 0; l < NL; l++) L.mpos[l] = -1;
+	/* the documented initialisers, on top of memory that is not zero */
+	static const list_t l0 = LIST_VAR_INIT; static const list_node_t n0 = LIST_NODE_VAR_INIT;
+	for (int l = 0; l < NL; l++) { memset(&L.lists[l], 0xa5, sizeof(list_t)); L.lists[l] = l0; }
+	for (int i = 0; i < MAXN; i++) { memset(&L.nodes[i].link, 0xa5, sizeof(list_node_t)); L.nodes[i].link = n0; }
+}
+
+/* ------------------------------------------------------------------ long lists
+ * The search above is complete for pools of up to 6 nodes. Lists longer than any pool - on both sides of every width a
+ * length, index or hop counter could be narrowed to - are covered by a product family instead of a search:
+ *   length n x how the list was built x one probe operation x the position it is aimed at,
+ * each case built afresh, the probe compared with an array model (return value, then a full head/next traversal). */
+#define BIGMAX 65540
+static node_t *big; static list_t biglist; static int32_t *bm; static int bml;
+static const int big_lens[] = { 33, 65, 129, 255, 256, 257, 1000, 65535, 65536, 65537 };
+enum { B_INSERT, B_PUSH, B_SORTED, B_KINDS };
+static const char *bname[] = { "tail-insert", "push", "insert_sorted" };
+enum { P_CONTAINS, P_CONTAINS_IT, P_REMOVE, P_IT_REMOVE, P_IT_INSERT, P_EXTRACT, P_WALK, P_KINDS };
+static const char *pname[] = { "contains", "contains(iter)+next", "remove", "iterate..iterator_remove", "iterate..iterator_insert", "extract", "iterate to the end" };
+static uint64_t big_cases, big_calls;
+static int big_n, big_build, big_probe, big_pos;
+
+__attribute__((format(printf, 2, 3)))
+static int big_fail(const char *clause, const char *fmt, ...)
+{
+	va_list ap; va_start(ap, fmt); char *m = vx_vfmt(fmt, ap); va_end(ap);
+	char sig[200], rp[200];
+	snprintf(sig, sizeof(sig), "long-list|%s|%s|%s", clause, bname[big_build], pname[big_probe]);
+	snprintf(rp, sizeof(rp), "long=1\nn=%d\nbuild=%d\nprobe=%d\npos=%d\n", big_n, big_build, big_probe, big_pos);
+	vx_violation(sig, rp, "%s: %s -- list of %d nodes built by %s, probe %s at position %d", clause, m, big_n, bname[big_build], pname[big_probe], big_pos);
+	free(m);
+	return 1;
+}
+static int big_idx(list_node_t *p) { if (!p) return -1; node_t *q = containerof(p, node_t, link); return q >= big && q < big + BIGMAX ? (int)(q - big) : -2; }
+static int big_check(void)
+{
+	list_node_t *p = biglist.head; int i = 0;
+	for (; p && i <= bml; p = p->next, i++)
+		if (i >= bml || big_idx(p) != bm[i]) return big_fail("traverse", "position %d holds node %d, the model has %d elements%s", i, big_idx(p), bml, i < bml ? " (a different node there)" : "");
+	if (i != bml) return big_fail("traverse", "the list has %d elements, the model %d", i, bml);
+	return 0;
+}
+static void bm_insert(int pos, int node) { memmove(bm + pos + 1, bm + pos, sizeof(bm[0]) * (size_t)(bml - pos)); bm[pos] = node; bml++; }
+static void bm_remove(int pos) { memmove(bm + pos, bm + pos + 1, sizeof(bm[0]) * (size_t)(bml - pos - 1)); bml--; }
+static int big_cmp(list_node_t *a, list_node_t *b) { return containerof(a, node_t, link)->key - containerof(b, node_t, link)->key; }
+
+static int big_case(int n, int build, int probe, int pos)
+{
+	static const list_t l0 = LIST_VAR_INIT; static const list_node_t n0 = LIST_NODE_VAR_INIT;
+	big_n = n; big_build = build; big_probe = probe; big_pos = pos;
+	vx_lib_reset();
+	biglist = l0; bml = 0;
+	for (int i = 0; i <= n; i++) { big[i].link = n0; big[i].key = build == B_SORTED ? (i * 7) % 10 : i; }
+	big_cases++;
+	if (!(VX_TRY)) { VX_END; return big_fail("fault", "%s", vx_fault_msg); }
+	for (int i = 0; i < n; i++) {
+		if (build == B_INSERT) { list_insert(&biglist, &big[i].link); bm[bml++] = i; }
+		else if (build == B_PUSH) { list_push(&biglist, &big[i].link); bm[n - 1 - i] = i; bml++; }	/* model filled from the back */
+		else {
+			int at = 0; while (at < bml && big[bm[at]].key <= big[i].key) at++;
+			list_insert_sorted(&biglist, &big[i].link, big_cmp); bm_insert(at, i);
+		}
+	}
+	big_calls += (uint64_t)n;
+	if (big_check()) { VX_END; return 1; }
+	int target = bm[pos], extra = n;	/* node at the probed position; big[n] is a spare node */
+	list_iterator_t it; list_node_t *r; bool b; int i;
+	switch (probe) {
+	case P_CONTAINS:
+		b = list_contains(&biglist, &big[target].link, NULL);
+		if (!b) { VX_END; return big_fail("contains", "list_contains says the node at position %d is not a member", pos); }
+		if (list_contains(&biglist, &big[extra].link, NULL)) { VX_END; return big_fail("contains", "list_contains finds a node that is in no list"); }
+		break;
+	case P_CONTAINS_IT:
+		b = list_contains(&biglist, &big[target].link, &it);
+		if (!b) { VX_END; return big_fail("contains", "list_contains(iter) says the node at position %d is not a member", pos); }
+		for (i = pos + 1; ; i++) {
+			r = list_iterator_next(&it);
+			if (big_idx(r) != (i < bml ? bm[i] : -1)) { VX_END; return big_fail("iterator_next", "after list_contains(iter) at %d: step to position %d yields node %d, expected %d", pos, i, big_idx(r), i < bml ? bm[i] : -1); }
+			if (!r) break;
+		}
+		break;
+	case P_REMOVE:
+		b = list_remove(&biglist, &big[target].link);
+		if (!b) { VX_END; return big_fail("remove", "list_remove says the node at position %d is not a member", pos); }
+		bm_remove(pos);
+		if (list_remove(&biglist, &big[extra].link)) { VX_END; return big_fail("remove", "list_remove removes a node that is in no list"); }
+		list_insert(&biglist, &big[target].link); bm_insert(bml, target);	/* immediately reusable */
+		break;
+	case P_IT_REMOVE: case P_IT_INSERT:
+		r = list_iterate(&biglist, &it);
+		for (i = 0; i < pos; i++) r = list_iterator_next(&it);
+		if (big_idx(r) != target) { VX_END; return big_fail("iterator_next", "walking to position %d yields node %d, expected %d", pos, big_idx(r), target); }
+		if (probe == P_IT_REMOVE) {
+			r = list_iterator_remove(&it); bm_remove(pos);
+			if (big_idx(r) != (pos < bml ? bm[pos] : -1)) { VX_END; return big_fail("iterator_remove", "returned node %d, expected %d", big_idx(r), pos < bml ? bm[pos] : -1); }
+			list_push(&biglist, &big[target].link); bm_insert(0, target);
+		} else {
+			list_iterator_insert(&it, &big[extra].link); bm_insert(pos, extra);
+		}
+		break;
+	case P_EXTRACT:
+		for (i = 0; i <= pos && i < 300; i++) {
+			r = list_extract(&biglist);
+			if (big_idx(r) != bm[0]) { VX_END; return big_fail("extract", "extract #%d returned node %d, expected %d", i, big_idx(r), bm[0]); }
+			bm_remove(0);
+		}
+		list_insert(&biglist, &big[extra].link); bm_insert(bml, extra);
+		break;
+	case P_WALK:
+		r = list_iterate(&biglist, &it);
+		for (i = 0; ; i++) {
+			if (big_idx(r) != (i < bml ? bm[i] : -1)) { VX_END; return big_fail("iterate", "iteration yields node %d at position %d, expected %d", big_idx(r), i, i < bml ? bm[i] : -1); }
+			if (!r) break;
+			r = list_iterator_next(&it);
+		}
+		break;
+	}
+	big_calls += 4;
+	int bad = big_check();
+	VX_END;
+	return bad;
+}
+static int big_positions(int n, int *out)
+{
+	const int cand[] = { 0, 1, 31, 32, 33, n / 2, 254, 255, 256, 257, n - 2, n - 1 };
+	int k = 0;
+	for (unsigned i = 0; i < sizeof(cand) / sizeof(cand[0]); i++) {
+		int dup = 0;
+		if (cand[i] < 0 || cand[i] >= n) continue;
+		for (int j = 0; j < k; j++) if (out[j] == cand[i]) dup = 1;
+		if (!dup) out[k++] = cand[i];
+	}
+	return k;
+}
+static void big_alloc(void) { if (!big) { big = calloc(BIGMAX, sizeof(node_t)); bm = malloc(sizeof(bm[0]) * BIGMAX); if (!big || !bm) _exit(3); } }
+static void long_lists(uint64_t first_unit)
+{
+	big_alloc();
+	uint64_t unit = first_unit; int complete = 1;
+	for (unsigned li = 0; li < sizeof(big_lens) / sizeof(big_lens[0]); li++)
+		for (int build = 0; build < B_KINDS; build++) {
+			int n = big_lens[li];
+			if (build == B_SORTED && n > 1000) continue;	/* quadratic */
+			if (!vx_mine(unit++)) continue;
+			int pos[16], np = big_positions(n, pos), stop = 0;
+			for (int probe = 0; probe < P_KINDS && !stop; probe++)
+				for (int k = 0; k < np && !stop; k++) {
+					if (probe == P_WALK && k) continue;		/* position-free */
+					if (big_case(n, build, probe, pos[k])) stop = 1;	/* one report per (length, build) */
+					if (vx_deadline_passed()) { stop = 1; complete = 0; }
+				}
+		}
+	vx_count("long_list_cases", big_cases); vx_count("long_list_api_calls", big_calls);
+	vx_count("traces", big_cases);
+	vx_and("exhaustive", complete);
+	if (big_cases) vx_sample("long lists: %llu cases = lengths {33,65,129,255,256,257,1000,65535,65536,65537} x {tail-insert, push, insert_sorted (<= 1000)} x 7 probes x positions {0,1,31,32,33,n/2,254..257,n-2,n-1}, e.g. n=%d %s, %s at position %d",
+			(unsigned long long)big_cases, big_n, bname[big_build], pname[big_probe], big_pos);
 }
 
 int main(int argc, char **argv)
@@ -238,6 +409,14 @@ int main(int argc, char **argv)
 	vx_bfs b = { .live = &L, .size = sizeof(L), .nops = NOPS, .enabled = op_enabled, .apply = op_apply,
 		     .canon = op_canon, .describe = op_describe };
 	char *rp = vx_read_replay();
+	if (rp && vx_replay_field(rp, "long")) {
+		big_alloc();
+		int n = atoi(vx_replay_field(rp, "n")), bu = atoi(vx_replay_field(rp, "build")), pr = atoi(vx_replay_field(rp, "probe")), po = atoi(vx_replay_field(rp, "pos"));
+		if (n < 1 || n > BIGMAX - 2 || bu < 0 || bu >= B_KINDS || pr < 0 || pr >= P_KINDS || po < 0 || po >= n) { fprintf(stderr, "c09: malformed replay file\n"); return 3; }
+		big_case(n, bu, pr, po);
+		vx_finish();
+		return 0;
+	}
 	if (rp) {
 		const char *cn = vx_replay_field(rp, "config");
 		for (unsigned c = 0; c < lengthof(configs); c++) if (cn && !strcmp(cn, configs[c].name)) {
@@ -250,6 +429,7 @@ int main(int argc, char **argv)
 	for (unsigned c = 0; c < lengthof(configs); c++) {
 		if (configs[c].thorough && !vx_thorough()) continue;
 		if (!vx_mine(c)) continue;
+		vx_lib_reset();
 		setup((int)c);
 		b.name = configs[c].name;
 		vx_bfs_run(&b);
@@ -269,9 +449,12 @@ int main(int argc, char **argv)
 		free(hs.s); free(rs.s);
 		vx_bfs_free(&b);
 	}
+	long_lists(lengthof(configs));
 	for (int k = 0; k < OP_KINDS; k++) {
 		char nm[64]; snprintf(nm, sizeof(nm), "op_%s", opname[k]); vx_count(nm, exercised[k]);
 	}
+	vx_count("free_nodes_with_a_non_null_link_seen(not judged)", free_nodes_with_link);
+	vx_count("library_static_bytes_in_every_snapshot", vx_lib_size());
 	vx_finish();
 	return 0;
 }
